@@ -16,7 +16,7 @@ from harness.lib import common
 PROP = 'C19'
 PROP_FILE = 'Props/C19.v'
 THEOREMS = ['C19_split_invariant', 'C19_matches_reference', 'C19_truncated_or_corrupt_is_error',
-            'C19_stream_glue', 'C19_stream_glue_wire', 'C19_stream_glue_short_is_error', 'C19_content_encoding_selection',
+            'C19_stream_glue', 'C19_stream_glue_wire', 'C19_stream_glue_ignore_length', 'C19_stream_glue_short_is_error', 'C19_content_encoding_selection',
             'C19_data_after_end_marker_ignored', 'C19_zlib_sniff_shape',
             'C19_wrapped_gzip_success', 'C19_wrapped_zlib_success', 'C19_sniff_agrees_with_zlib',
             'C19_wrapped_data_after_end_marker_ignored', 'C19_gzip_uncompress',
@@ -375,9 +375,9 @@ CE_CLEAN = [('gzip', 'KGzip'), ('GZIP', 'KGzip'), ('GZip', 'KGzip'), ('gZiP', 'K
 DECODER_CLASS = {'KGzip': 'GzipDecompressor', 'KDeflate': 'DeflateDecompressor', 'KIdentity': 'NoneType'}
 
 
-def _ce_lines(r, body_kind):
+def _ce_lines(r, body_kind, always_matching=False):
     """Content-Encoding header lines + the decoder kind they are meant to select"""
-    if r.random() < 0.6:
+    if always_matching or r.random() < 0.6:
         cands = [x for x in CE_CLEAN if x[1] == body_kind]
     else:
         cands = CE_CLEAN
@@ -455,8 +455,8 @@ def generate_glue(r, n_msgs, big=0):
         if complete and tag in ('gzip', 'zlib', 'raw') and len(entity) > 1 and r.random() < 0.25:
             entity = entity[:r.choice([len(entity) - 1, r.randrange(1, len(entity))])]
             tag += '-truncated'
-        ce_lines, kind = _ce_lines(r, body_kind)
-        raw = r.random() < 0.06
+        raw = r.random() < 0.12
+        ce_lines, kind = _ce_lines(r, body_kind, always_matching=raw)
         strat = r.choice(['close', 'length', 'length', 'chunked', 'chunked', 'ignore_length', 'length-surplus',
                           'length-short', 'length-cut', 'chunked-eof', 'length-zero'])
         if raw and strat.startswith('chunked'):
@@ -481,11 +481,12 @@ def generate_glue(r, n_msgs, big=0):
         elif strat == 'ignore_length':
             ignore_length = True
             wire = entity + (b'' if r.random() < 0.6 else b'\x00tail')
-            delivered, st = wire, ['close']
-            hdrs.append(b'Content-Length: %d' % r.choice([len(entity), 0, 3, len(entity) + 5]))
+            declared = r.choice([len(entity), 0, 3, len(entity) + 5])
+            delivered, st = wire, ['length', declared]       # what the headers say; the model applies ignore_length itself
         else:
             wire, sizes, spans, body_done = _chunk_wire(r, entity)
             delivered, st = entity, ['chunked', sizes]
+            ignore_length = r.random() < 0.15           # no effect on a chunked body
             if strat == 'chunked-eof' and len(wire) > 1:
                 cut = r.randrange(1, body_done + 1)     # not inside the trailer (a cut-off trailer line is C08/C09 matter)
                 wire = wire[:cut]
@@ -625,9 +626,10 @@ def _coq_glue_case(case, res):
     st = _coq_strategy(case['strategy'])
     raw = 'true' if case['raw'] else 'false'
     pieces = '[' + '; '.join('unhex "%s"' % p for p in res['pieces']) + ']'
-    return ('gres_eqb (tab_read_body %s %s %s %s %s (unhex6 "%s") %s (unhex "%s")) (%s)\n    && pieces_ok %s (fst (tab_body_pieces %s %s (unhex "%s"))) %s'
-            % (t31, t15, traw, oracle, raw, ce, st, case['wire'], exp,
-               'false' if err == 'ProtocolError' else 'true', oracle, st, case['wire'], pieces))
+    il = 'true' if case['ignore_length'] else 'false'
+    return ('gres_eqb (tab_read_body %s %s %s %s %s (unhex6 "%s") %s %s (unhex "%s")) (%s)\n    && pieces_ok %s (fst (tab_body_pieces %s (effective %s %s) (unhex "%s"))) %s'
+            % (t31, t15, traw, oracle, raw, ce, il, st, case['wire'], exp,
+               'false' if err == 'ProtocolError' else 'true', oracle, il, st, case['wire'], pieces))
 
 
 def glue_correspondence(ctx, r):
@@ -638,7 +640,7 @@ def glue_correspondence(ctx, r):
     if not lower or lower.get('bad'):
         disagreements.append({'note': 'str.lower() fact used by select_kind failed on this interpreter', 'detail': lower})
     for c, res in zip(cases, results):
-        if res.get('strategy') != c['strategy'][0] and not (c['ignore_length'] and res.get('strategy') == 'length'):
+        if res.get('strategy') != c['strategy'][0]:
             disagreements.append({'case': {k: c[k] for k in ('segs', 'tag')}, 'note': 'read strategy differs from the generator\'s (harness or C08 matter)',
                                   'impl': res.get('strategy')})
         if not res['machine_ok']:
